@@ -41,9 +41,10 @@ CHECKS = {
     'C10': "Proved (partial, stated as such): for patterns that are a concatenation of leaves without tree wildcards the reported depth is invariant and equals the "
            "component count of every canonical path of the documented language (C10_flat_sound; the general statement is in the file as C10_full). Tie: depth() exact variance vs the model of the whole algebra "
            "(conjunction table, disjunction over hash sets, products, finalize). Oracle: component count of every matched canonical path within the reported variance.",
-    'C11': "Proved (all token trees, combinators included): C11_unique - invariant text => no other text is in the documented language (hypothesis on the two tables: a "
-           "caseless character only folds to itself; validated over all code points on every run); two different texts => variant. Tie: text() vs the model. Oracle: "
-           "invariant text is matched (absent separator classes) and is the only matched path, incl. its case variants.",
+    'C11': "Proved (all token trees, combinators included): C11_one_and_only - if the pattern reports invariant text, its documented language is exactly that text: no "
+           "other text belongs to it (C11_unique; hypothesis on the two tables: a caseless character only folds to itself; validated over all code points on every "
+           "run) and the text does (C11_matched; for trees in which no class lists the separator - the known class separator_class); two different texts => variant. "
+           "Tie: text() vs the model. Oracle: invariant text is matched (absent separator classes) and is the only matched path, incl. its case variants.",
     'C12': "Proved (all token trees, combinators included): has_root = Always => every path of the documented language begins with a separator; "
            "C12_semantic_literals_found - the breadth-first literal search reaches every component at every nesting depth (fuel proved adequate), so a component spelled "
            "`.` or `..` anywhere makes has_semantic_literals true. Tie: has_root(), "
